@@ -93,3 +93,288 @@ Example c07_nonvacuous :
     forallb (fun k => negb (is_ok (dec_column Unsafe t 3 (firstn k (enc_column Safe t d)))))
             (seq 0 (length (enc_column Safe t d))) = true.
 Proof. eexists. split; [vm_compute; reflexivity|]. split; vm_compute; [lia|reflexivity]. Qed.
+
+(* ======================================================================================================
+   Block and stream level (extension C07x; proofs in proofs/BlockPrefixProofs.v, proofs/ClientPrefixProofs.v)
+
+   Vocabulary (model/Block.v, model/Recv.v, proofs/RecvProofs.v, proofs/RecvProofs2.v):
+     encode_block b v info nrows cols   Block.EncodeBlock at revision v in build b (None: the encoder's error);
+     decode_block auto b' v ts          Block.DecodeBlock in build b' into proto.Results ts (auto = false; ts = []:
+                                        an empty Results, headers are skipped) or into (&ts).Auto() (auto = true);
+     block_parser c tg                  the same as Do's receiver calls it, tg = TgNil being q.Result == nil;
+     col_ok nrows c c'                  c is a column of nrows rows of a well-formed type whose Prepare succeeds,
+                                        c' is c prepared (what a target holds after decoding);
+     fits tg nrows cols                 the block matches the binding: every typed target's own Infer accepts the
+                                        column's type string and its name is equal or blank; for Auto, ColAuto.Infer
+                                        knows the type strings ([infer_auto (type_str t) = Some t]); without targets
+                                        the block has no rows or no columns (DecodeBlock's own rule);
+     conflicts / infer_target / infer_auto   ColumnType.Conflicts, Inferable.Infer, ColAuto.Infer: ANY functions with
+                                        [conflicts s s = false] (instances: model/Results.v, C18/C19);
+     frames_of H comp body payload      payload = the frames of ANY list (method, piece) with the pieces concatenating
+                                        to body, the last piece not empty, every frame within compress.Reader's limits;
+     via H decomp c true p []           decodeBlock's decompressing path: parser p over compress.Reader ([read_comp]);
+                                        [Err ECorrupt] is the model's "read next block: <any readBlock error>".
+   Zero rows / zero columns, exactly: for nrows = 0 nothing is written for a column but its header (name, type,
+   custom-serialization flag; no state prefix, no data: [zero_row_block_is_headers_only]), and the block
+   (columns = 0, rows = 0) is the end-of-data marker, decoded without looking at the targets
+   ([end_block_prefix_rejected] needs no premise on them).  Both are blocks like any other for the theorems below:
+   every proper prefix is rejected.  What is NOT claimed: that a complete block followed by a cut second block is
+   rejected as a whole - the first block is decoded and delivered, the cut one is the error (Part 3).
+   ====================================================================================================== *)
+From CH Require Import model.Block model.Recv proofs.RecvProofs proofs.ParserStable proofs.RecvProofs2 proofs.BlockPrefixProofs.
+
+(* 1. every proper prefix of an encoded block is rejected: typed targets, Results.Auto, no targets; every revision;
+      encoder's build b and decoder's build b' independent; every cut k *)
+Theorem block_prefix_rejected : forall conflicts infer_target infer_auto,
+  (forall s, conflicts s s = false) ->
+  forall auto b b' v ts info nrows cols cols' body,
+  in_i32 (bi_bucket info) -> nrows <= max_rows -> (Z.of_nat (length cols) <= maxColumnsInBlock)%Z ->
+  Forall2 (RecvProofs.col_ok nrows) cols cols' ->
+  (is_end_marker nrows cols = false -> RecvProofs.fits infer_target infer_auto (tg_of auto ts) nrows cols) ->
+  encode_block b v info nrows cols = Some body ->
+  forall k, (k < length body)%nat ->
+    is_ok (decode_block conflicts infer_target infer_auto auto b' v ts (firstn k body)) = false.
+Proof. exact block_prefix_rejected_thm. Qed.
+Print Assumptions block_prefix_rejected.
+
+(* ... and for a block under the model's allocation budget (~25 GB) the answer is precisely "unexpected end of
+   input": no other error class, no panic, no allocation beyond the cap *)
+Theorem block_prefix_needs_more : forall conflicts infer_target infer_auto,
+  (forall s, conflicts s s = false) ->
+  forall auto b b' v ts info nrows cols cols' body,
+  in_i32 (bi_bucket info) -> nrows <= max_rows -> (Z.of_nat (length cols) <= maxColumnsInBlock)%Z ->
+  Forall2 (RecvProofs.col_ok nrows) cols cols' ->
+  (is_end_marker nrows cols = false -> RecvProofs.fits infer_target infer_auto (tg_of auto ts) nrows cols) ->
+  encode_block b v info nrows cols = Some body -> 2 * blen body + 4096 <= alloc_cap ->
+  forall k, (k < length body)%nat ->
+    decode_block conflicts infer_target infer_auto auto b' v ts (firstn k body) = Err EEof.
+Proof. exact block_prefix_eof_thm. Qed.
+Print Assumptions block_prefix_needs_more.
+
+(* the same through the receiver's entry point, q.Result == nil included *)
+Theorem block_parser_prefix_rejected : forall conflicts infer_target infer_auto,
+  (forall s, conflicts s s = false) ->
+  forall c tg info nrows cols cols' body,
+  in_i32 (bi_bucket info) -> nrows <= max_rows -> (Z.of_nat (length cols) <= maxColumnsInBlock)%Z ->
+  Forall2 (RecvProofs.col_ok nrows) cols cols' ->
+  (is_end_marker nrows cols = false -> RecvProofs.fits infer_target infer_auto tg nrows cols) ->
+  encode_block (c_build c) (c_rev c) info nrows cols = Some body ->
+  forall k, (k < length body)%nat ->
+    is_ok (block_parser conflicts infer_target infer_auto c tg (firstn k body)) = false.
+Proof. exact block_parser_prefix_rejected_thm. Qed.
+Print Assumptions block_parser_prefix_rejected.
+
+(* the end-of-data block: any targets whatsoever *)
+Theorem end_block_prefix_rejected : forall conflicts infer_target infer_auto,
+  (forall s, conflicts s s = false) ->
+  forall auto b b' v ts info body,
+  in_i32 (bi_bucket info) -> encode_block b v info 0 [] = Some body ->
+  forall k, (k < length body)%nat ->
+    is_ok (decode_block conflicts infer_target infer_auto auto b' v ts (firstn k body)) = false.
+Proof. exact end_block_prefix_rejected_thm. Qed.
+Print Assumptions end_block_prefix_rejected.
+
+(* a zero-row block is its header and the column headers, nothing else *)
+Theorem zero_row_block_is_headers_only : forall b v info cols body,
+  Forall (fun c => rows (c_ty c) (c_data c) = 0 /\
+                   exists d, prepare (c_ty c) (c_data c) = Some d /\ rows (c_ty c) d = 0) cols ->
+  encode_block b v info 0 cols = Some body ->
+  body = (if gate v FeatureBlockInfo then encode_BlockInfo info else []) ++
+         put_int (Z.of_nat (length cols)) ++ put_int 0 ++
+         concat (map (fun c => enc_start v (c_name c) (c_ty c)) cols).
+Proof. exact zero_row_block_bytes. Qed.
+Print Assumptions zero_row_block_is_headers_only.
+
+(* 2. compressed streams, any framing: ANY decoder that is monotone and stable (every decoder under
+      Block.DecodeBlock is: ParserStable.v) run by the decompressing reader over ANY proper prefix of ANY admissible
+      frame list for what it accepts - the cut inside a checksum, a frame header, compressed data, or exactly
+      between two frames - fails *)
+Theorem compressed_any_framing_prefix_rejected : forall H comp decomp, codec_rt comp decomp ->
+  forall A c (p : parser A) a body payload,
+  mono p -> stable p -> p body = Ok a [] -> c_comp c = true ->
+  frames_of H comp body payload -> 2 * blen body + 4096 <= alloc_cap ->
+  forall k, (k < length payload)%nat -> via H decomp c true p [] (firstn k payload) = Err ECorrupt.
+Proof. exact (fun H comp decomp codec A => @via_frames_cut H comp decomp codec A). Qed.
+Print Assumptions compressed_any_framing_prefix_rejected.
+
+(* ... for the block decoder and a block accepted by encode_block *)
+Theorem compressed_block_prefix_rejected : forall conflicts infer_target infer_auto H comp decomp,
+  (forall s, conflicts s s = false) -> codec_rt comp decomp ->
+  forall c auto b b' v ts info nrows cols cols' body payload,
+  in_i32 (bi_bucket info) -> nrows <= max_rows -> (Z.of_nat (length cols) <= maxColumnsInBlock)%Z ->
+  Forall2 (RecvProofs.col_ok nrows) cols cols' ->
+  (is_end_marker nrows cols = false -> RecvProofs.fits infer_target infer_auto (tg_of auto ts) nrows cols) ->
+  encode_block b v info nrows cols = Some body -> 2 * blen body + 4096 <= alloc_cap ->
+  c_comp c = true -> frames_of H comp body payload ->
+  forall k, (k < length payload)%nat ->
+    via H decomp c true (decode_block conflicts infer_target infer_auto auto b' v ts) [] (firstn k payload)
+    = Err ECorrupt.
+Proof. exact compressed_block_cut_thm. Qed.
+Print Assumptions compressed_block_prefix_rejected.
+
+(* the cut exactly between two frames, spelled out: the frames before the cut (l1) arrived whole; the decoder has
+   consumed all they carry and wants more; readBlock finds a clean end of input where the next frame header should
+   be - and that is an error of the decode, not the end of the block *)
+Theorem frame_boundary_cut_rejected : forall H comp decomp, codec_rt comp decomp ->
+  forall A c (p : parser A) a (l1 l2 : list (method * bytes)) p1,
+  mono p -> stable p -> c_comp c = true ->
+  p (concat (map snd (l1 ++ l2))) = Ok a [] ->
+  l2 <> [] -> last (map snd (l1 ++ l2)) [] <> [] ->
+  encode_frames H comp l1 = Some p1 -> Forall (frame_fits H comp) l1 ->
+  2 * blen (concat (map snd (l1 ++ l2))) + 4096 <= alloc_cap ->
+  p (concat (map snd l1)) = Err EEof /\
+  read_block H decomp [] = (inl (CEHeader true), [], []) /\
+  via H decomp c true p [] p1 = Err ECorrupt.
+Proof. exact (fun H comp decomp codec A => @frame_boundary_cut H comp decomp codec A). Qed.
+Print Assumptions frame_boundary_cut_rejected.
+
+(* 3. "never reports partial data as complete", at the receiver: the server stream consists of the complete
+      packets ps (no terminating event among them; compressed blocks in any framing) followed by the first j bytes
+      (any j below its length; 0 = the connection ends between packets) of a Data / Totals / Log / ProfileEvents
+      packet that fits the binding left by ps.  Do's receiver returns a read failure - not nil, not an exception,
+      not a callback's error - and the callbacks that ran are exactly those of ps: OnResult / OnLogs / OnLog /
+      OnProfileEvents / OnProfileEvent did not run for the cut packet. *)
+Theorem block_prefix_no_callback : forall conflicts infer_target infer_auto H comp decomp,
+  (forall s, conflicts s s = false) -> codec_rt comp decomp ->
+  forall c hs tg ps stream k info nrows cols bs,
+  script_okF infer_target infer_auto c tg ps -> wire_script H comp c ps stream ->
+  expected_outcome c hs tg ps = None ->
+  packet_okF infer_target infer_auto c (s_tg (snd (spec_run c hs (sst_init tg) ps))) (PBlock k info nrows cols) ->
+  wire_packet H comp c (PBlock k info nrows cols) bs ->
+  forall j, (j < length bs)%nat ->
+  exists e st r,
+    recv conflicts infer_target infer_auto H decomp c hs tg (stream ++ firstn j bs) = (OErr e, st, r) /\
+    read_failure (OErr e) /\ r_trace st = expected_trace c hs tg ps.
+Proof. exact block_prefix_no_callback_thm. Qed.
+Print Assumptions block_prefix_no_callback.
+
+(* the same on one script ending in the block packet: every cut of the stream at or behind the start of its last
+   packet gives a read failure with the trace of the packets before it *)
+Theorem stream_cut_in_last_block_no_callback : forall conflicts infer_target infer_auto H comp decomp,
+  (forall s, conflicts s s = false) -> codec_rt comp decomp ->
+  forall c hs tg ps k info nrows cols full,
+  script_okF infer_target infer_auto c tg (ps ++ [PBlock k info nrows cols]) ->
+  wire_script H comp c (ps ++ [PBlock k info nrows cols]) full ->
+  expected_outcome c hs tg ps = None ->
+  exists n0, (n0 < length full)%nat /\ wire_script H comp c ps (firstn n0 full) /\
+    forall j, (n0 <= j < length full)%nat ->
+      exists e st r,
+        recv conflicts infer_target infer_auto H decomp c hs tg (firstn j full) = (OErr e, st, r) /\
+        read_failure (OErr e) /\ r_trace st = expected_trace c hs tg ps.
+Proof. exact stream_cut_in_last_block_thm. Qed.
+Print Assumptions stream_cut_in_last_block_no_callback.
+
+(* non-vacuity, blocks: two columns, Array(String) = [["ab"], [], ["c","d"]] and LowCardinality(String) =
+   ["x","y","x"] (a dictionary of two keys), at revision 54460.  The hypotheses of the theorems hold; the block is
+   123 bytes; EVERY cut of it is rejected by typed targets (holding stale rows), by Results.Auto and in the other
+   build; cut into three frames with method byte LZ4 (under a stand-in codec and hash), every cut of the 198-byte
+   frame stream - inside checksums, headers, data and at both frame boundaries - is rejected; and in the receiver, after
+   a complete header block, every cut of the Data packet carrying it gives an error with exactly the one earlier
+   OnResult call in the trace. *)
+Definition bx_conf (a b : bytes) : bool := negb (bytes_eqb a b).
+Definition bx_inf (t : ty) (_ : bytes) : option ty := Some t.
+Definition bx_auto (s : bytes) : option ty :=
+  if bytes_eqb s (type_str (TArr TStr)) then Some (TArr TStr)
+  else if bytes_eqb s (type_str (TLowCard TStr)) then Some (TLowCard TStr) else None.
+Definition bx_H (b : bytes) : N * N := (fold_left N.add b 7, fold_left (fun a x => 31 * a + x) b 1).
+Definition bx_comp (_ : method) (p : bytes) : option bytes := Some p.
+Definition bx_decomp (_ : N) (p : bytes) (_ : N) : option bytes := Some p.
+Definition bx_arr (offs : list N) (vs : list bytes) : col :=
+  {| c_name := [97] ; c_ty := TArr TStr ; c_data := DArr offs (DBytes vs) |}.
+Definition bx_lc (vs : list val) (keys : list N) (dict : list bytes) : col :=
+  {| c_name := [98] ; c_ty := TLowCard TStr ; c_data := DLowCard vs (DBytes dict) 0 keys |}.
+Definition bx_cols : list col := [bx_arr [1; 1; 3] [[97; 98]; [99]; [100]]; bx_lc [VB [120]; VB [121]; VB [120]] [] []].
+(* the same columns after Prepare: the dictionary [x; y] with UInt8 keys [0; 1; 0] *)
+Definition bx_cols' : list col :=
+  [bx_arr [1; 1; 3] [[97; 98]; [99]; [100]]; bx_lc [VB [120]; VB [121]; VB [120]] [0; 1; 0] [[120]; [121]]].
+Definition bx_info : block_info := {| bi_overflows := false ; bi_bucket := (-1)%Z |}.
+Definition bx_stale : list col := [bx_arr [2] [[1]; [2]]; bx_lc [VB [7]] [] []].
+Definition bx_cfg : cfg := {| c_rev := 54460 ; c_comp := true ; c_build := Unsafe |}.
+Definition bx_hs : handlers :=
+  {| on_result := Some (fun _ => true) ; on_progress := None ; on_profile := None ; on_pevents := None ;
+     on_pevent := None ; on_logs := None ; on_log := None |}.
+
+Example c07_block_nonvacuous :
+  exists body,
+    Forall2 (RecvProofs.col_ok 3) bx_cols bx_cols' /\
+    RecvProofs.fits bx_inf bx_auto (tg_of false bx_stale) 3 bx_cols /\
+    RecvProofs.fits bx_inf bx_auto (tg_of true []) 3 bx_cols /\
+    encode_block Unsafe 54460 bx_info 3 bx_cols = Some body /\ length body = 123%nat /\
+    decode_block bx_conf bx_inf bx_auto false Safe 54460 bx_stale body = Ok (bx_info, 2%Z, 3%Z, bx_cols') [] /\
+    forallb (fun k => negb (is_ok (decode_block bx_conf bx_inf bx_auto false Safe 54460 bx_stale (firstn k body)))
+                      && negb (is_ok (decode_block bx_conf bx_inf bx_auto true Unsafe 54460 [] (firstn k body)))
+                      && negb (is_ok (decode_block bx_conf bx_inf bx_auto false Unsafe 54460 [] (firstn k body))))
+            (seq 0 (length body)) = true /\
+    (* three frames: cut after 5 bytes (inside the block info) and after 30 more (inside the Array column) *)
+    exists payload,
+      encode_frames bx_H bx_comp (cut_frames [(MLZ4, 5%nat); (MLZ4, 30%nat)] MLZ4 body) = Some payload /\
+      length payload = 198%nat /\
+      via bx_H bx_decomp bx_cfg true (decode_block bx_conf bx_inf bx_auto false Safe 54460 bx_stale) [] payload
+        = Ok ((bx_info, 2%Z, 3%Z, bx_cols'), []) [] /\
+      forallb (fun k => match via bx_H bx_decomp bx_cfg true
+                                (decode_block bx_conf bx_inf bx_auto false Safe 54460 bx_stale) [] (firstn k payload) with
+                        | Err ECorrupt => true | _ => false end)
+              (seq 0 (length payload)) = true /\
+      (* the receiver: a header block (delivered: one OnResult), then the Data packet with the three frames, cut *)
+      exists stream, encode_packets_fr bx_H bx_comp bx_cfg
+                       [PBlock BData bx_info 0 [bx_arr [] []; bx_lc [] [] []]] [([], MNone)] = Some stream /\
+        let pkt := [1; 0] ++ payload in
+        forallb (fun j => let '(o, st, _) := recv bx_conf bx_inf bx_auto bx_H bx_decomp bx_cfg bx_hs (TgAuto [])
+                                               (stream ++ firstn j pkt) in
+                          match o with OErr (RDecode _) => Nat.eqb (length (r_trace st)) 1 | _ => false end)
+                (seq 0 (length pkt)) = true /\
+        let '(o, st, _) := recv bx_conf bx_inf bx_auto bx_H bx_decomp bx_cfg bx_hs (TgAuto []) (stream ++ pkt ++ [5]) in
+        o = ONil /\ length (r_trace st) = 2%nat.
+Proof.
+  eexists.
+  split.
+  { constructor; [|constructor; [|constructor]]; unfold RecvProofs.col_ok;
+      cbn [c_name c_ty c_data bx_cols bx_cols' bx_arr bx_lc];
+      (split; [reflexivity|]); (split; [reflexivity|]); (split; [reflexivity|]); (split; [vm_compute; reflexivity|]);
+      (split; [vm_compute; reflexivity|]); (split; [vm_compute; reflexivity|]);
+      (split; [|split; vm_compute; reflexivity]); cbn [wfd].
+    - split; [reflexivity|]. split; [vm_compute; reflexivity|]. split; [vm_compute; discriminate|].
+      split; [reflexivity|].
+      repeat (apply Forall_cons;
+              [split; [repeat (apply Forall_cons; [vm_compute; reflexivity|]); apply Forall_nil|vm_compute; reflexivity]|]).
+      apply Forall_nil.
+    - split; [reflexivity|]. split; vm_compute; reflexivity. }
+  split.
+  { cbn [tg_of RecvProofs.fits bx_stale]. constructor; [|constructor; [|constructor]];
+      (split; [right; reflexivity|reflexivity]). }
+  split.
+  { cbn [tg_of RecvProofs.fits]. repeat constructor. }
+  split; [vm_compute; reflexivity|]. split; [vm_compute; reflexivity|]. split; [vm_compute; reflexivity|].
+  split; [vm_compute; reflexivity|].
+  eexists. split; [vm_compute; reflexivity|]. split; [vm_compute; reflexivity|]. split; [vm_compute; reflexivity|].
+  split; [vm_compute; reflexivity|].
+  eexists. split; [vm_compute; reflexivity|]. split; [vm_compute; reflexivity|]. vm_compute. split; reflexivity.
+Qed.
+
+(* 4. client-to-server direction (model/Send.v, C02): every proper prefix of a Data packet as the client writes
+      it - plain or as the one frame of compress.Writer - is rejected by the reference server-side packet parser, and
+      no proper prefix of the whole stream of a query parses as a packet sequence *)
+From CH Require Import model.Send proofs.SendProofs proofs.ClientPrefixProofs.
+
+Theorem client_packet_prefix_rejected : forall H comp decomp, codec_rt comp decomp ->
+  forall k b b' table cols ts p,
+  SendProofs.cols_ok cols -> str_okb table = true -> SendProofs.fits H comp k b cols ->
+  blank_targets ts = blank_targets cols ->
+  packet_bytes H comp k b table cols = Some p ->
+  forall j, (j < length p)%nat ->
+    is_ok (parse_data H decomp (compressed k) b' (k_rev k) ts (firstn j p)) = false.
+Proof. exact client_packet_prefix_rejected_thm. Qed.
+Print Assumptions client_packet_prefix_rejected.
+
+Theorem client_stream_prefix_rejected : forall H comp decomp, codec_rt comp decomp ->
+  forall k b b' u bs,
+  gate (k_rev k) FeatureSettingsSerializedAsStrings = true ->
+  query_ok (proto_query k u) = true ->
+  str_okb (ext_table u) = true ->
+  SendProofs.cols_ok (u_ext u) -> SendProofs.cols_ok (u_input u) ->
+  SendProofs.fits H comp k b (u_ext u) -> SendProofs.fits H comp k b (u_input u) -> SendProofs.fits H comp k b [] ->
+  client_stream H comp k b u = Some bs ->
+  forall j, (j < length bs)%nat ->
+    is_ok (parse_client_stream H decomp k b' (schema_of u) (firstn j bs)) = false.
+Proof. exact client_query_stream_prefix_rejected_thm. Qed.
+Print Assumptions client_stream_prefix_rejected.
